@@ -9,7 +9,6 @@ import (
 	"go/types"
 	"sort"
 
-	"golang.org/x/tools/go/ast/astutil"
 	"golang.org/x/tools/go/ssa"
 )
 
@@ -472,7 +471,7 @@ func convText(w *World, fn *ssa.Function, c *ssa.Convert) string {
 	}
 	for _, f := range pkg.Syntax {
 		if f.Pos() <= pos && pos <= f.End() {
-			path, _ := astutil.PathEnclosingInterval(f, pos, pos)
+			path := pathEnclosing(f, pos, pos)
 			for _, n := range path {
 				if ce, ok := n.(*ast.CallExpr); ok && ce.Lparen == pos {
 					return types.ExprString(ce)
